@@ -196,26 +196,32 @@ class Gen:
             e = H.add(e, H.var(self.r.choice(coefvars)))
         return H.ex(H.add(e, term_const)) if self.coin(0.4) else H.ex(e)
 
+    def _shifted(self, v):
+        sh = self.r.choice([0, 0, 1, -1])
+        return H.var(v) if sh == 0 else H.add(H.var(v), H.num(sh))
+
     def cont_draw(self, mean_var=None):
         k = self.r.random()
         self.features.add("cont")
         if k < 0.3:
-            if mean_var and self.coin(0.4):
+            if mean_var and self.coin(0.6):
                 self.features.add("normal-var-mean")
-                return ("dist", "Normal", [H.var(mean_var), H.num(self.r.choice([1, 2, Fr(1, 4)]))])
+                return ("dist", "Normal", [self._shifted(mean_var), H.num(self.r.choice([1, 2, Fr(1, 4)]))])
             return ("dist", "Normal", [H.num(self.r.choice([0, 1, -1, 2])), H.num(self.r.choice([1, 2, 4, Fr(1, 4)]))])
         if k < 0.5:
             a = self.r.choice([0, -1, 1, 2])
-            if mean_var and self.coin(0.3):
+            if mean_var and self.coin(0.6):
                 self.features.add("uniform-var-bounds")
-                return ("dist", "Uniform", [H.var(mean_var), H.add(H.var(mean_var), H.num(2))])
+                sh = self.r.choice([0, 1, -1, 2])
+                lo = H.var(mean_var) if sh == 0 else H.add(H.var(mean_var), H.num(sh))     # a lower bound that is a sum
+                return ("dist", "Uniform", [lo, H.add(H.var(mean_var), H.num(sh + self.r.choice([1, 2])))])
             return ("dist", "Uniform", [H.num(a), H.num(a + self.r.choice([1, 2, 3]))])
         if k < 0.62:
             return ("dist", "Exponential", [H.num(self.r.choice([1, 2, Fr(1, 2), 3]))])
         if k < 0.74:
-            if mean_var and self.coin(0.3):
+            if mean_var and self.coin(0.6):
                 self.features.add("laplace-var-mean")
-                return ("dist", "Laplace", [H.var(mean_var), H.num(self.r.choice([1, 2]))])
+                return ("dist", "Laplace", [self._shifted(mean_var), H.num(self.r.choice([1, 2]))])
             return ("dist", "Laplace", [H.num(self.r.choice([0, 1, -2])), H.num(self.r.choice([1, 2, Fr(1, 2)]))])
         if k < 0.87:
             return ("dist", "Gamma", [H.num(self.r.choice([1, 2, 3, Fr(1, 2)])), H.num(self.r.choice([1, 2, Fr(1, 2)]))])
@@ -300,7 +306,7 @@ class Gen:
             # a draw whose parameter is a program variable makes the drawn variable depend on it: only in linear mode, and such a
             # draw is then used additively only (its square or a product with a variable would close a non-linear cycle, which
             # is outside the documented class)
-            mv = r.choice(self.nums) if (self.nums and self.coin(0.3) and mode == "linear") else None
+            mv = r.choice(self.nums) if (self.nums and self.coin(0.5) and mode == "linear") else None
             rhs = self.cont_draw(mv)
             self.draws[d] = rhs
             if any(a[0] != "num" for a in rhs[2]):
@@ -354,6 +360,14 @@ class Gen:
                     self.features.add("constant-in-condition")
                     stmt = ("ite", H.cmp_(r.choice([">=", "==", "<"]), H.var("k"), H.num(r.choice([1, 2]))), [stmt], [])
                 body.append(stmt)
+                if self.coin(0.3):
+                    # a second constant computed from the first one, which is then re-initialised: k1 keeps the OLD value of k
+                    init.append(H.assign("k1", H.ex(H.add(H.mul(H.num(r.choice([1, 2, -1])), H.var("k")), H.num(r.choice([0, 1]))))))
+                    init.append(H.assign("k", H.ex(H.num(kv + r.choice([1, 2, -3])))))
+                    self.consts.append("k1")
+                    tgt = r.choice(self.nums)
+                    body.append(H.assign(tgt, H.ex(H.add(H.var(tgt), H.var("k1")))))
+                    self.features.add("constant-from-reinitialised-constant")
         guard = H.TT
         if fam == "guarded" and fnames:
             f = r.choice(fnames)
